@@ -425,6 +425,7 @@ def stream_ctxraw(ctx, shim, ch, r, n):
     ctx.correspond("arabic-joinraw", lines=raw_lines, classify=classify)
     ro, no, ao = q(shim, raw_lines), q(shim, nul_lines), q(shim, api_lines)
     bad = stale = 0
+    fails = []
     for (how, desc, a, pl, t, b, ql, pre, post), rl, nl, al, x, y, z in zip(cases, raw_lines, nul_lines, api_lines, ro, no, ao):
         # non-trivial: a non-transparent character sits behind a length that hides it
         hidden = [c for c in a[pl:] + b[ql:] if c and ch.res.get(c) != JT_NUM["T"]]
@@ -432,14 +433,23 @@ def stream_ctxraw(ctx, shim, ch, r, n):
             stale += 1
         if x != z or x != y:
             bad += 1
-            if bad <= 3:
-                ctx.violation("the joining pass depends on context characters BEHIND the context length (what an earlier "
-                              "set_pre_context / set_post_context call left in the array): "
-                              + (f"after the calls `{desc}` " if how == "history" else "")
-                              + f"{rl} -> {x}; the same text on a fresh buffer with only the effective context ({al}) -> {z}; "
-                              f"with NUL behind the lengths -> {y}",
-                              {"stage": "search", "stream": "context-history", "how": how, "calls": desc, "request": rl,
-                               "fresh_request": al, "nul_request": nl, "observed": x, "expected": z})
+            fails.append((len(desc) + len(rl), how, desc, rl, nl, al, x, y, z))
+    fails.sort()
+    # the shortest failing input of each kind, then the next shortest
+    picked = [next((f for f in fails if f[1] == h), None) for h in ("history", "slots")] + fails[:1]
+    seen = set()
+    for f in picked:
+        if f is None or f[3] in seen:
+            continue
+        seen.add(f[3])
+        _, how, desc, rl, nl, al, x, y, z = f
+        ctx.violation("the joining pass depends on context characters BEHIND the context length (what an earlier "
+                      "set_pre_context / set_post_context call left in the array): "
+                      + (f"after the calls `{desc}` " if how == "history" else "")
+                      + f"{rl} -> {x}; the same text on a fresh buffer with only the effective context ({al}) -> {z}; "
+                      f"with NUL behind the lengths -> {y}",
+                      {"stage": "search", "stream": "context-history", "how": how, "calls": desc, "request": rl,
+                       "fresh_request": al, "nul_request": nl, "observed": x, "expected": z})
     ctx.note_search("context-history", len(cases), stale, mismatches=bad,
                     rule="crate alone, real arabic_joining through the hook joining_raw (context arrays and lengths set "
                          "separately): (a) arrays and lengths as a HISTORY of public context calls on one UnicodeBuffer left them "
